@@ -486,6 +486,50 @@ func (in *Interp) step(h *Hist, t *recT, st *Step, real *testing.T) {
 		} else {
 			snaps.MatchSnapshot(t)
 		}
+	case "mdirect":
+		// the matchers' public methods applied directly to the caller's bytes (C15)
+		ev.Ev = "mdirect"
+		in0 := unb64(st.Val.B64)
+		cur := append([]byte(nil), in0...)
+		var names [][2]string
+		func() {
+			defer func() {
+				if r := recover(); r != nil {
+					ev.Panic = fmt.Sprint(r)
+				}
+			}()
+			if st.API == "yaml" {
+				for _, m := range yamlMatchers(st.Matchers) {
+					out, errs := m.YAML(cur)
+					for _, e := range errs {
+						names = append(names, [2]string{e.Matcher, e.Path})
+					}
+					if len(errs) == 0 {
+						cur = out
+					}
+				}
+			} else {
+				for _, m := range jsonMatchers(st.Matchers) {
+					buf := append([]byte(nil), cur...) // what a caller would hand in
+					keep := append([]byte(nil), buf...)
+					out, errs := m.JSON(buf)
+					for _, e := range errs {
+						names = append(names, [2]string{e.Matcher, e.Path})
+					}
+					if string(buf) != string(keep) {
+						ev.Note = "caller buffer modified"
+					}
+					if len(errs) == 0 {
+						cur = append([]byte(nil), out...)
+					}
+				}
+			}
+		}()
+		ev.Out = base64.StdEncoding.EncodeToString(cur)
+		nb, _ := json.Marshal(names)
+		ev.Buf = base64.StdEncoding.EncodeToString(nb)
+		in.tr.emit(ev)
+		return
 	case "match":
 		ev.Ev = "match"
 		var buf []byte
@@ -630,6 +674,15 @@ func goVals(v *Val) []any {
 			panic("unknown go value " + v.Name)
 		}
 		return []any{f()}
+	case "gojson":
+		// a marshalable Go value built from a JSON text (numbers kept as json.Number)
+		dec := json.NewDecoder(strings.NewReader(string(unb64(v.B64))))
+		dec.UseNumber()
+		var x any
+		if err := dec.Decode(&x); err != nil {
+			panic(err)
+		}
+		return []any{x}
 	case "multi":
 		var out []any
 		for _, x := range v.Vals {
